@@ -565,6 +565,10 @@ func genText(t *rapid.T, maxLines int) string {
 	lines := make([]string, n)
 	for i := range lines {
 		lines[i] = genLine(t, 67)
+		// a paragraph break: an empty line strictly inside the value
+		if i > 0 && i < n-1 && rapid.IntRange(0, 3).Draw(t, "blankline") == 0 {
+			lines[i] = ""
+		}
 	}
 	return strings.Join(lines, "\n")
 }
